@@ -108,7 +108,8 @@ using VFrontend = quill::FrontendImpl<FO>;
 using VLogger = quill::LoggerImpl<FO>;
 
 static std::atomic<long> g_delivered{0}, g_delivered_y{0};
-static shim::Clock g_wclk;
+static shim::Clock g_wclk, g_dclk;
+static std::atomic<bool> g_sink_dead{false};
 static std::mutex g_wr_mx;
 static std::vector<long> g_written;          // serial numbers of the "X c<k> <n>" statements the sink received
 // a filter that rejects the statements of one class ("X c<k> ...")
@@ -146,6 +147,17 @@ struct CountSink : quill::Sink
     g_delivered.fetch_add(1);
   }
   void flush_sink() override {}
+  ~CountSink() override
+  {
+    // the destruction of the sink (remove_logger_blocking: "its sinks are destroyed") is a plain access of the backend thread
+    std::lock_guard<std::recursive_mutex> lk(shim::g_mx);
+    if (shim::g_thr >= 0)
+    {
+      ++shim::g_clk[shim::g_thr].c[shim::g_thr];
+      g_dclk = shim::g_clk[shim::g_thr];
+    }
+    g_sink_dead.store(true);
+  }
 };
 
 // --- parking: by default the backend thread at the head of its loop; in general any logical thread at the accesses of `policy`
@@ -190,7 +202,7 @@ struct Worker
   std::condition_variable cv;
   int cmd = 0;            // 0 none, 1 warm-up (set-up mode), 2 log, 3 exit the thread, 4 flush_log(), 5 Backend::stop()
   bool ack = true;        // the last command has completed
-  bool flush_visible = false;
+  bool flush_visible = false, remove_visible = false;
   int karg = 0;           // argument of the commands 7 (add the class-k filter to the sink) and 8 (log a class-k statement)
   quill::Sink* sink = nullptr;
   long committed = 0;
@@ -219,6 +231,13 @@ struct Worker
           LOG_INFO(logger, "X big {}", std::string(150, 'x'));
           shim::g_thr = -1;
           ++committed;
+        }
+        else if (c == 9)
+        {
+          shim::g_thr = logical;
+          VFrontend::remove_logger_blocking(logger);
+          { std::lock_guard<std::recursive_mutex> lk(shim::g_mx); remove_visible = g_sink_dead.load() && shim::leq(g_dclk, shim::g_clk[logical]); }
+          shim::g_thr = -1;
         }
         else if (c == 7)
         {
@@ -290,7 +309,7 @@ int main(int argc, char** argv)
   auto filters_locked = [&]
   {
     std::lock_guard<std::recursive_mutex> lk(shim::g_mx);
-    return X.sink && X.sink->_global_filters_lock._flag.h.back().val == quill::detail::Spinlock::State::Locked;
+    return X.sink && !g_sink_dead.load() && X.sink->_global_filters_lock._flag.h.back().val == quill::detail::Spinlock::State::Locked;
   };
   auto cache_size = [] { return quill::detail::BackendManager::instance()._backend_worker._active_thread_contexts_cache.size(); };
   auto state_json = [&](int t)
@@ -357,7 +376,8 @@ int main(int argc, char** argv)
         shim::g_names[&quill::detail::ThreadContextManager::instance()._new_thread_context_flag] = "F";
         shim::g_names[&X.ctx->_failure_counter] = "C";
         shim::g_names[&quill::detail::ThreadContextManager::instance()._spinlock._flag] = "L";      // (parked at only on request)
-        shim::g_names[&X.sink->_new_filter] = "NF";        // named for its memory orders only: never scripted, reads the newest message
+        shim::g_names[&X.sink->_new_filter] = "NF";
+        shim::g_names[&quill::detail::LoggerManager::instance()._has_invalidated_loggers] = "H";      // (for its orders only)        // named for its memory orders only: never scripted, reads the newest message
       }
       // arm: from now on B parks at the head of its loop
       { std::lock_guard<std::mutex> l(s_mx); s_armed = true; s_policy = {"1:R:load"}; }
@@ -416,6 +436,27 @@ int main(int argc, char** argv)
         X.post(4);
         while (X.wsize() == before) std::this_thread::sleep_for(std::chrono::microseconds{50});      // the request is committed
         emit("{\"e\":\"flushcall\",\"committed\":" + std::to_string(X.committed) + "}");
+      }
+      else if (op == "removecall")
+      {
+        { std::lock_guard<std::recursive_mutex> lk(shim::g_mx); shim::g_autoname = "RB"; }
+        X.post(9);
+        // until the request is committed and remove_logger has been called (the manager's flag stored)
+        while (true)
+        {
+          {
+            std::lock_guard<std::recursive_mutex> lk(shim::g_mx);
+            if (quill::detail::LoggerManager::instance()._has_invalidated_loggers.h.size() >= 2) break;
+          }
+          std::this_thread::sleep_for(std::chrono::microseconds{50});
+        }
+        emit("{\"e\":\"removecall\",\"committed\":" + std::to_string(X.committed) + "}");
+      }
+      else if (op == "removeret")
+      {
+        X.wait();
+        emit(std::string("{\"e\":\"removed\",\"sinkdead\":") + (g_sink_dead.load() ? "true" : "false") + ",\"visible\":" +
+             (X.remove_visible ? "true" : "false") + ",\"loggers\":" + std::to_string(VFrontend::get_number_of_loggers()) + "}");
       }
       else if (op == "flushret")
       {
